@@ -89,7 +89,7 @@ CHECKS["C12"] = {
 CHECKS["C17"] = {
     "text": "Stateless exploration of the real evaluator's complete tree of random choices: the name `random` inside jsonpath_rfc9535.segments/.selectors is rebound to an enumerating chooser (depth-first, prefix replay, one real find() per leaf; sample() outcomes enumerated up to object identity). Inputs: 12 queries x all 9 905 JSON trees with <=5 nodes (98 245 with <=6 in thorough), 4 descendant queries x all array-only container skeletons with <=7 (8) nodes, and the repository's 10 nondeterminism cases. Validity: every leaf result is in the reference model's permitted set. Exhaustiveness: the union of leaf results equals that set. 3.8 M executions in quick.",
     "ref": "DESIGN.md section 5, C17",
-    "note": "Assumes all randomness flows through the module-level name `random` of the two modules (a replayed prefix meeting a different arity is a hard error). Open known finding F-C17-1 (traversal not exhaustive) is listed case by case; validity holds everywhere explored.",
+    "note": "Assumes all randomness flows through the module-level name `random` of the two modules (a replayed prefix meeting a different arity is a hard error).",
     "technique": "stateless exploration of the choice tree of the real code (enumerating random source), exact set comparison with reference model",
 }
 CHECKS["C18"] = {
